@@ -164,4 +164,184 @@ theorem modebasis_without_grid_has_no_dict (b : ModeBasis) (h : b.grid = none) :
 theorem to_dict_pure (g : Grid) (f : Field) (b : ModeBasis) :
     g.toDictSt.1 = g ∧ f.toDictSt.1 = f ∧ b.toDictSt.1 = b := ⟨rfl, rfl, rfl⟩
 
+/-! ## the FITS paths -/
+
+/-- **Fields through FITS.**  For every tensor shape `ts`, every grid kind and every grid shape:
+whenever `write_field` can write the file, `read_field` returns the field that was written
+(values, tensor shape, grid).  Separated grids travel as an image of shape `ts ++ grid.shape`,
+the others inside the embedded tree. -/
+theorem fits_field_roundtrip (f : Field) (ts : List Nat) (h : f.grid.Ok)
+    (hshape : f.values.shape = ts ++ [f.grid.coords.size]) (file : FitsFile)
+    (hw : writeFieldFits f = .ok file) : readFieldFits file = .ok f := by
+  obtain ⟨⟨dt, shape, data⟩, g⟩ := f
+  simp only at hshape h
+  subst hshape
+  unfold writeFieldFits at hw
+  by_cases hsep : g.coords.isSeparated = true
+  · have hsize := Coords.size_eq g.coords hsep
+    have hlen := Coords.shape_length g.coords hsep
+    have hprod : prod (ts ++ g.coords.shape) = prod (ts ++ [g.coords.size]) := by
+      simp [prod_append, prod_singleton, hsize]
+    simp only [hsep, if_true, Arr.reshape, List.dropLast_concat, hprod, bind, Except.bind] at hw
+    split at hw
+    · injection hw with hw
+      subst hw
+      have ht := take_length_sub ts g.coords.shape g.coords.ndim hlen
+      simp only [List.length_append] at ht
+      simp [readFieldFits, Field.toDict, Tree.erase, eraseKey, Tree.set, setKey, Tree.get, lookup,
+        grid_dict_roundtrip g h, bind, Except.bind, Arr.reshape, ht, hprod, Field.fromDict, asArr]
+    · cases hw
+  · simp only [hsep] at hw
+    injection hw with hw
+    subst hw
+    simpa [readFieldFits] using field_dict_roundtrip _ h
+
+example : (⟨⟨"f8", [2, 4], [1, 2, 3, 4, 5, 6, 7, 8]⟩,
+    ⟨.cartesian, .unstructured [⟨"f8", [4], [0, 1, 3, 4]⟩, ⟨"f8", [4], [0, 2, 5, 7]⟩], .null⟩⟩ : Field).values.shape
+    = [2] ++ [(Coords.unstructured [⟨"f8", [4], [0, 1, 3, 4]⟩, ⟨"f8", [4], [0, 2, 5, 7]⟩]).size] := by decide
+
+/-- **Dense mode bases through FITS** (after the repair of D30).  For every tensor shape `ts`,
+number of modes `m` and grid: whenever `write_mode_basis` can write the file, `read_mode_basis`
+returns the basis that was written.  On separated grids the matrix travels as an image with axes
+(mode, tensor…, grid…). -/
+theorem fits_basis_dense_roundtrip (b : ModeBasis) (a : Arr) (g : Grid) (ts : List Nat) (m : Nat)
+    (htm : b.tm = .dense a) (hg : b.grid = some g) (h : g.Ok)
+    (hshape : a.shape = ts ++ [g.coords.size, m]) (hdata : a.data.length = prod a.shape)
+    (file : FitsFile) (hw : writeBasisFits b = .ok file) : readBasisFits file = .ok b := by
+  obtain ⟨tm, og⟩ := b
+  obtain ⟨dt, shape, data⟩ := a
+  simp only at htm hg hshape hdata
+  subst htm hg hshape
+  have hsh : ts ++ [g.coords.size, m] = (ts ++ [g.coords.size]) ++ [m] :=
+    (List.append_assoc ts [g.coords.size] [m]).symm
+  rw [hsh] at hdata
+  have hlenD : data.length = prod (ts ++ [g.coords.size]) * m := by
+    rw [hdata, prod_append, prod_singleton]
+  unfold writeBasisFits at hw
+  simp only [ModeBasis.toDict, ModeBasis.isSparse, bind, Except.bind] at hw
+  by_cases hcond : (g.coords.size ≠ 0 && g.coords.isSeparated) = true
+  · have hsep : g.coords.isSeparated = true := by
+      simp only [Bool.and_eq_true] at hcond; exact hcond.2
+    have hsize := Coords.size_eq g.coords hsep
+    have hlen := Coords.shape_length g.coords hsep
+    have hprod : prod (m :: (ts ++ g.coords.shape)) = prod (m :: (ts ++ [g.coords.size])) := by
+      simp [prod, prod_append, hsize]
+    simp only [hcond, if_true, ModeBasis.denseArr, hsh, List.getLastD_concat, List.dropLast_concat,
+      Arr.moveLastToFront, Arr.reshape, hprod] at hw
+    split at hw
+    · cases hw
+    · split at hw
+      · injection hw with hw
+        subst hw
+        have ht := take_length_sub (m :: ts) g.coords.shape g.coords.ndim hlen
+        simp only [List.length_append, List.cons_append, List.length_cons] at ht
+        have hlenD' : data.length = prod ts * prod g.coords.shape * m := by
+          rw [hlenD, prod_append, prod_singleton, hsize]
+        simp [readBasisFits, Tree.erase, eraseKey, Tree.set, setKey, Tree.get, lookup,
+          grid_dict_roundtrip g h, bind, Except.bind, Arr.reshape, ht, hprod, prod, prod_append,
+          hsize, ModeBasis.fromDict, Arr.moveFirstToLast, Except.map, ModeBasis.toDense,
+          transposeFlat_involutive _ _ _ hlenD']
+      · cases hw
+  · simp only [hcond] at hw
+    injection hw with hw
+    subst hw
+    have := modebasis_dict_roundtrip ⟨.dense ⟨dt, ts ++ [g.coords.size, m], data⟩, some g⟩ g rfl h
+    simpa [readBasisFits, ModeBasis.toDict, ModeBasis.isSparse, Except.bind] using this
+
+/-- **Sparse mode bases through FITS** (after the repair of D14).  Whenever the file can be written
+it can be read, the result is sparse and on the same grid; it is either the very same CSC matrix
+(tree path) or the re-sparsified dense image `csc_matrix(c.todense())` (image path).
+`_partial`: that `denseToCsc (cscToDense c)` has the same dense values as `c` for every `c` is
+not proved here (it is checked on every sparse basis of the correspondence run, where the model's
+CSC arrays are compared with SciPy's). -/
+theorem fits_basis_sparse_roundtrip_partial (b : ModeBasis) (c : Csc) (g : Grid) (m : Nat)
+    (htm : b.tm = .sparse c) (hg : b.grid = some g) (h : g.Ok)
+    (hshape : c.shape = [g.coords.size, m])
+    (file : FitsFile) (hw : writeBasisFits b = .ok file) :
+    readBasisFits file = .ok b ∨
+    readBasisFits file = .ok ⟨.sparse (denseToCsc (cscToDense c)), some g⟩ := by
+  obtain ⟨tm, og⟩ := b
+  simp only at htm hg
+  subst htm hg
+  obtain ⟨hAs, hAd⟩ := cscToDense_shape c _ _ hshape
+  unfold writeBasisFits at hw
+  simp only [ModeBasis.toDict, ModeBasis.isSparse, bind, Except.bind] at hw
+  by_cases hcond : (g.coords.size ≠ 0 && g.coords.isSeparated) = true
+  · right
+    have hsep : g.coords.isSeparated = true := by
+      simp only [Bool.and_eq_true] at hcond; exact hcond.2
+    have hsize := Coords.size_eq g.coords hsep
+    have hlen := Coords.shape_length g.coords hsep
+    simp only [hcond, if_true, ModeBasis.denseArr] at hw
+    generalize cscToDense c = a at hw hAs hAd ⊢
+    obtain ⟨dt, shape, data⟩ := a
+    simp only at hAs hAd
+    subst hAs
+    have hprod : prod (m :: g.coords.shape) = prod [m, g.coords.size] := by
+      simp [prod, hsize]
+    have e1 : [g.coords.size, m].getLastD 1 = m := rfl
+    have e2 : ∀ x y : Nat, [x, y].dropLast = [x] := fun _ _ => rfl
+    have e3 : ∀ x : Nat, prod [x] = x := fun x => by simp [prod]
+    have e4 : ∀ x : Nat, [x].dropLast = [] := fun _ => rfl
+    simp only [Arr.moveLastToFront, e1, e2, e3, e4, List.nil_append, Arr.reshape, hprod, ↓reduceIte,
+      ite_true] at hw
+    split at hw
+    · cases hw
+    · split at hw
+      · injection hw with hw
+        subst hw
+        have ht := take_length_sub [m] g.coords.shape g.coords.ndim hlen
+        simp only [List.length_append, List.cons_append, List.nil_append, List.length_cons,
+          List.length_nil] at ht
+        have hlenD' : data.length = prod g.coords.shape * m := by rw [hAd, hsize]
+        simp [readBasisFits, Tree.erase, eraseKey, Tree.set, setKey, Tree.get, lookup,
+          grid_dict_roundtrip g h, bind, Except.bind, Arr.reshape, ht, hprod, prod, prod_append,
+          hsize, ModeBasis.fromDict, Arr.moveFirstToLast, Except.map, ModeBasis.toSparse,
+          transposeFlat_involutive _ _ _ hlenD']
+      · cases hw
+  · left
+    simp only [hcond] at hw
+    injection hw with hw
+    subst hw
+    have := modebasis_dict_roundtrip ⟨.sparse c, some g⟩ g rfl h
+    simpa [readBasisFits, ModeBasis.toDict, ModeBasis.isSparse, Except.bind] using this
+
+/-! ### the unrepaired read/write paths and their counterexamples -/
+
+def exGridU : Grid :=
+  ⟨.cartesian, .unstructured [⟨"f8", [4], [0, 1, 3, 4]⟩, ⟨"f8", [4], [0, 2, 5, 7]⟩], .null⟩
+def exGridR : Grid := ⟨.cartesian, .regular [.float 1] [2] [.float 0], .null⟩
+def exVector : Field := ⟨⟨"f8", [2, 4], [1, 2, 3, 4, 5, 6, 7, 8]⟩, exGridU⟩
+def exTensor : Field := ⟨⟨"f8", [3, 1, 4], [1, 2, 3, 4, 5, 6, 7, 8, 9, 10, 11, 12]⟩, exGridU⟩
+def exTensorBasis : ModeBasis :=
+  ⟨.dense ⟨"f8", [2, 2, 3], [1, 2, 3, 4, 5, 6, 7, 8, 9, 10, 11, 12]⟩, some exGridR⟩
+def exSparseBasis : ModeBasis := ⟨.sparse (denseToCsc ⟨"f8", [2, 3], [1, 0, 3, 4, 5, 0]⟩), some exGridR⟩
+
+/-- D19: on the unrepaired tree a vector field on an unstructured 2-D grid is written but cannot
+be read (`ValueError`), and a tensor field of shape (3, 1) comes back with tensor shape (3,). -/
+theorem fits_field_old_counterexample :
+    (writeFieldFits exVector).bind readFieldFitsOld = .error .value ∧
+    ((writeFieldFits exTensor).bind readFieldFitsOld).map (·.values.shape) = .ok [3, 4] := by
+  constructor <;> rfl
+
+/-- D30: on the unrepaired tree a (2, N, M) tensor mode basis on a regular grid comes back as an
+(N, 2·M) matrix. -/
+theorem fits_basis_old_counterexample_tensor :
+    ((writeBasisFitsOld exTensorBasis).bind readBasisFitsOld).map (·.denseArr.shape) = .ok [2, 6] := by
+  rfl
+
+/-- D14: on the unrepaired tree a sparse mode basis on a regular grid is written but cannot be
+read (`scipy.sparse` refuses the big-endian image). -/
+theorem fits_basis_old_counterexample_sparse :
+    (writeBasisFitsOld exSparseBasis).bind readBasisFitsOld = .error .value := by
+  rfl
+
+/-- the repaired paths on the same inputs -/
+theorem fits_repaired_on_counterexamples :
+    ((writeFieldFits exVector).bind readFieldFits).map (·.values) = .ok exVector.values ∧
+    ((writeFieldFits exTensor).bind readFieldFits).map (·.values) = .ok exTensor.values ∧
+    ((writeBasisFits exTensorBasis).bind readBasisFits).map (·.tm) = .ok exTensorBasis.tm ∧
+    ((writeBasisFits exSparseBasis).bind readBasisFits).map (·.tm) = .ok exSparseBasis.tm := by
+  refine ⟨rfl, rfl, ?_, ?_⟩ <;> decide +kernel
+
 end HcipyVerif.Serial
